@@ -14,6 +14,7 @@ LEVEL_NOTE = ('Trusted: the ast front-end, the interpreter, real/complex algebra
 EXPLANATION = ('R12.1 general helpers == closed form for l=2..7; R12.2 degree-2 helpers == general helpers at l=2; '
                'R12.3 callers (TidesBase wrappers, collapse_modes) interpreted with callee inlined must yield the closed-form Love number, '
                'which decides argument order at the call sites; R12.4 ragged multi-frequency collapse; R12.5 no in-place update of arguments; R12.6 exact layered-solver solution == complex_love_general; R12.7 the value the public entry point reports under love_number_by_orderl.')
+EXPLANATION += ' R12.8 the array twin: every interpreted call repeated with array arguments (mutable cells) returns the scalar values element for element and leaves the arguments intact.'
 
 
 def run(chk):
